@@ -240,7 +240,7 @@ func (st *sortTable) structSort(t types.Type, u *types.Struct) string {
 	var fields []string
 	for i := 0; i < u.NumFields(); i++ {
 		f := u.Field(i)
-		fields = append(fields, fmt.Sprintf("(%s %s)", quoteID(fmt.Sprintf("%s.%s", name, f.Name())), st.sortOf(f.Type())))
+		fields = append(fields, fmt.Sprintf("(%s %s)", quoteID(fmt.Sprintf("%s.%s", name, fieldName(u, i))), st.sortOf(f.Type())))
 	}
 	if len(fields) == 0 {
 		fields = append(fields, fmt.Sprintf("(%s Int)", quoteID(name+".$unit")))
@@ -277,7 +277,15 @@ func (st *sortTable) zero(t types.Type) string {
 func (st *sortTable) fieldSel(t types.Type, i int) string {
 	u := t.Underlying().(*types.Struct)
 	name := st.structSort(t, u)
-	return quoteID(fmt.Sprintf("%s.%s", name, u.Field(i).Name()))
+	return quoteID(fmt.Sprintf("%s.%s", name, fieldName(u, i)))
+}
+
+func fieldName(u *types.Struct, i int) string {
+	n := u.Field(i).Name()
+	if n == "_" {
+		return fmt.Sprintf("_%d", i)
+	}
+	return n
 }
 
 func (st *sortTable) mkStruct(t types.Type, fields []string) string {
